@@ -66,6 +66,10 @@ def split_variants(c, levels):
     return out
 
 
+class SliverAmbiguity(Exception):
+    pass
+
+
 def refinable_at(c, t):
     return (not c.fixed) and len(c.map) > 0 and all(v <= t for v in c.map.values())
 
@@ -90,6 +94,8 @@ def ref_apply(cells, op):
             for x in xs[1:-1]:
                 nxt = []
                 for (r, d) in pieces:
+                    if r[0] < x < r[2] and min(x - r[0], r[2] - x) <= F(1, 100) * (r[3] - r[1]):
+                        raise SliverAmbiguity()       # the statement exempts this cut: either result is admissible
                     if r[0] < x < r[2] and min(x - r[0], r[2] - x) > F(1, 100) * (r[3] - r[1]):
                         nxt += [((r[0], r[1], x, r[3]), d + 1), ((x, r[1], r[2], r[3]), d + 1)]
                     else:
@@ -98,6 +104,8 @@ def ref_apply(cells, op):
             for y in ys[1:-1]:
                 nxt = []
                 for (r, d) in pieces:
+                    if r[1] < y < r[3] and min(y - r[1], r[3] - y) <= F(1, 100) * (r[2] - r[0]):
+                        raise SliverAmbiguity()
                     if r[1] < y < r[3] and min(y - r[1], r[3] - y) > F(1, 100) * (r[2] - r[0]):
                         nxt += [((r[0], r[1], r[2], y), d + 1), ((r[0], y, r[2], r[3]), d + 1)]
                     else:
@@ -216,12 +224,31 @@ def decorations(k, rich):
     return out
 
 
+# anisotropic families: very elongated cells next to boundaries close to their ends (the 1% sliver rule of
+# griddify compares a piece's thickness with the cell's OTHER side)
+_STR = [F(0), F(1, 2), F(64), F(129, 2)]
+_D300 = lambda i: F(3001 * i, 10)       # 300.1 steps: non-dyadic coordinates in the hundreds  # noqa
+AXIS_FAMILIES = {
+    # 'P300': the same explorations after a unit-square allocation was built first in the same interpreter (so the
+    # process-wide tolerances were fixed by a design 300..900 times smaller; within the factor 1000 of C20)
+    'P300': (_D300, _D300),
+    'STRX': (lambda i: _STR[i], lambda j: F(j)),
+    'STRY': (lambda i: F(i), lambda j: _STR[j]),
+}
+
+
+def fam_axes(fam):
+    if fam in AXIS_FAMILIES:
+        return AXIS_FAMILIES[fam]
+    return FAMILIES[fam], FAMILIES[fam]
+
+
 def make_cells(fam, layout, deco):
-    f = FAMILIES[fam]
+    fx, fy = fam_axes(fam)
     maps, depths, fixed_i = deco
     cells = []
     for j, r in enumerate(layout):
-        ex = (f(r[0]), f(r[1]), f(r[2]), f(r[3]))
+        ex = (fx(r[0]), fy(r[1]), fx(r[2]), fy(r[3]))
         if fixed_i == j:
             cells.append(Cell(ex, True, depths[j], {'F': 1.0}))
         else:
@@ -238,11 +265,14 @@ def cells_from_desc(desc):
 
 
 # ------------------------------------------------------------------ exploration
-def explore(init_cells, depth, on_state, on_transition, res, scale, ops=None):
+def explore(init_cells, depth, on_state, on_transition, res, scale, ops=None, prior=False):
     """BFS from one initial state.  on_state(cells, alloc, hist); on_transition(cells, alloc, op, out|exc, hist)
     must return the model cells of the successor (or None to stop exploring that branch)."""
     tol = 1e-9 * scale
     reset_frame_state()
+    if prior:
+        from frame.allocation.allocation import Allocation
+        Allocation([[[0.5, 0.5, 1, 1], {'P': 0.5}]])
     try:
         a0 = build_real(init_cells)
     except Exception as e:  # noqa - not an accepted allocation: not part of the space
@@ -295,10 +325,10 @@ def shard_plan(tier):
     """list of shard descriptors: (family, grid, layout index range)"""
     out = []
     if tier == 'quick':
-        plan = [('HALF', 3, 2, 3, True), ('DEC1', 2, 3, 2, False)]
+        plan = [('HALF', 3, 2, 3, True), ('DEC1', 2, 3, 2, False), ('STRX', 3, 2, 2, False), ('STRY', 2, 3, 2, False), ('P300', 3, 2, 2, False)]
     else:
         plan = [('HALF', 3, 2, 4, True), ('DEC1', 3, 2, 3, True), ('DEC3', 2, 3, 3, True), ('HALF', 3, 3, 3, False),
-                ('DEC7', 4, 1, 4, True)]
+                ('DEC7', 4, 1, 4, True), ('STRX', 3, 2, 3, False), ('STRY', 2, 3, 3, False), ('P300', 3, 2, 3, False)]
     for (fam, nx, ny, kmax, rich) in plan:
         n = len(layouts(nx, ny, kmax))
         step = 4
@@ -370,7 +400,11 @@ class Checker:
             res.violation('raises', self.case(hist), dict(at, exc=type(exc).__name__), 'the operation succeeds',
                           f'{type(exc).__name__}: {exc}')
             return None
-        variants = ref_apply(cells, op)
+        try:
+            variants = ref_apply(cells, op)
+        except SliverAmbiguity:
+            res.counters['ambiguous:sliver-cut'] += 1
+            return None
         real = real_cells(out)
         succ = match_result(real, variants, tol)
         if self.mode == 'C12':
@@ -443,13 +477,14 @@ class Checker:
 def run_shard_common(mode, shard, tier, res):
     depth = 2 if tier == 'quick' else 3
     fam = shard['fam']
-    scale = float(FAMILIES[fam](max(shard['nx'], shard['ny'])))
+    fx, fy = fam_axes(fam)
+    scale = float(max(fx(shard['nx']), fy(shard['ny'])))
     n0 = 0
     first = None
     for cells in shard_states(shard):
         ck = Checker(mode, res, fam, cells)
         t_before = res.transitions
-        explore(cells, depth, ck.on_state, ck.on_transition, res, scale, OPS_QUICK if tier == 'quick' else OPS)
+        explore(cells, depth, ck.on_state, ck.on_transition, res, scale, OPS_QUICK if tier == 'quick' else OPS, prior=fam.startswith('P'))
         if res.transitions > t_before:
             n0 += 1
             if first is None:
@@ -471,6 +506,9 @@ def check_case_common(mode, case, res):
     scale = float(max(max(c.r[2], c.r[3]) for c in cells))
     tol = 1e-9 * scale
     reset_frame_state()
+    if fam.startswith('P'):
+        from frame.allocation.allocation import Allocation
+        Allocation([[[0.5, 0.5, 1, 1], {'P': 0.5}]])
     alloc = build_real(cells)
     ck = Checker(mode, res, fam, cells)
     hist = []
